@@ -47,21 +47,6 @@ Proof.
   apply L3; assumption.
 Qed.
 
-Definition class_of_rank (k : nat) : capri_class :=
-  match k with 0%nat => Incorrect | 1%nat => Acceptable | 2%nat => Medium | _ => High end.
-
-(* executable version of the level reading *)
-Definition levelb (k : nat) (f l i : Q) : bool :=
-  match k with
-  | 0%nat => true
-  | 1%nat => Qleb t01 f && (Qleb l 10 || Qleb i 4)
-  | 2%nat => Qleb t03 f && (Qleb l 5 || Qleb i 2)
-  | _ => Qleb t05 f && (Qleb l 1 || Qleb i 1)
-  end.
-Definition capri_spec (f l i : Q) : capri_class :=
-  if levelb 3 f l i then High else if levelb 2 f l i then Medium
-  else if levelb 1 f l i then Acceptable else Incorrect.
-
 Lemma capri_eq_spec f l i : capri f l i = Ok (class_name (capri_spec f l i)).
 Proof.
   unfold capri, capri_src, capri_spec, levelb.
